@@ -1318,7 +1318,10 @@ pub fn oracle_bounds(sp: &Sp, real: &RealSp, s: &St, out: &mut Vec<Finding>) {
         _ => {}
     }
     if let Some(R::Ok(e2)) = op_enforce(real, &e1) {
-        if st_bits(&e2) != st_bits(&e1) {
+        // idempotent up to the representation of one configuration (+PI / -PI at the seam, re-normalisation
+        // rounding): judged in the space's own metric within its tolerance
+        let same_cfg = okf(op_dist(real, &e1, &e2)).map(|d| d <= tol(sp, 0.0)).unwrap_or(false);
+        if st_bits(&e2) != st_bits(&e1) && !same_cfg {
             out.push(finding("C11", &format!("enforce_not_idempotent:{kind}"), format!("{sp:?}: enforce(enforce({s:?})) = {e2:?} differs from {e1:?}")));
         }
     }
@@ -1330,7 +1333,9 @@ pub fn oracle_bounds(sp: &Sp, real: &RealSp, s: &St, out: &mut Vec<Finding>) {
             // already satisfying canonical states are left unchanged (quaternions: up to re-normalisation rounding)
             // unchanged up to the rounding of re-normalisation (angles: (v + pi) rem 2 pi - pi, quaternions: division by the norm)
             let same = st_bits(&e1) == st_bits(s)
-                || st_bits(&e1).iter().zip(st_bits(s)).all(|(x, y)| (f64::from_bits(*x) - f64::from_bits(y)).abs() <= 1e-12 * (1.0 + f64::from_bits(y).abs()));
+                || st_bits(&e1).iter().zip(st_bits(s)).all(|(x, y)| (f64::from_bits(*x) - f64::from_bits(y)).abs() <= 1e-12 * (1.0 + f64::from_bits(y).abs()))
+                // +PI and -PI are the same configuration: "unchanged" is judged in the space's own metric
+                || okf(op_dist(real, s, &e1)).map(|d| d <= tol(sp, 0.0)).unwrap_or(false);
             if !same {
                 out.push(finding("C11", &format!("enforce_changes_satisfying_state:{kind}"), format!("{sp:?}: enforce_bounds({s:?}) = {e1:?}")));
             }
